@@ -40,7 +40,9 @@ def canonical(sc):
                 r = [repr(x) for x in r]
             elif s["op"] in ("cands", "seeds"):
                 r = [sorted(d.items()) for d in r]
-            elif s["op"] in ("allseeds", "expseeds"):
+            elif s["op"] == "expsets":
+                r = sorted(r.items())
+            elif s["op"] in ("allseeds", "expseeds", "expcands"):
                 r = [[k, [sorted(d.items()) for d in v]] for k, v in r.items()]
             elif s["op"] == "sets":
                 r = len(r)
